@@ -210,6 +210,8 @@ ROUTES = {
     "struct_deriv_early_late": lambda sm, E, e, v, p: bool(sm.Derivative(e, compute_early=True).as_expression() == sm.Derivative(e).as_expression()),
     "struct_diff_early_late": lambda sm, E, e, v, p: bool(sm.Differential(e, compute_early=True).component(v).as_expression() == sm.Differential(e).component(v).as_expression()),
     "eq_diff_component_partial": lambda sm, E, e, v, p: bool(sm.Differential(e).component(v) == sm.Partial(e, v)) and bool(sm.Differential(e, compute_early=True).component(E.Variable(v)) == sm.Partial(e, v)),
+    # the same equalities between USED objects: each side has computed and stored its symbolic partial by its own route, was hashed and queried
+    "eq_diff_component_partial_used": lambda sm, E, e, v, p: _eq_used(sm, E, e, v, p),
     "eq_diff_at_located": lambda sm, E, e, v, p: bool(sm.Differential(e).at(p) == sm.LocatedDifferential(e, p)) and bool(sm.Differential(e, compute_early=True).at(p) == sm.LocatedDifferential(e, p)),
     # the late Differential's component written as an expression, evaluated (companion of struct_diff_early_late)
     "synth_diff_late": lambda sm, E, e, v, p: sm.Differential(e).component(v).as_expression().at(p),
@@ -238,6 +240,10 @@ ROUTE_PARTS = {
     "diff_comp_at_early": (lambda sm, E, e, v: sm.Differential(e, compute_early=True), lambda sm, E, o, v, p: o.component_at(v, p)),
     "fwd_after_asexp": (lambda sm, E, e, v: _after_asexp(sm.Partial(e, v)), lambda sm, E, o, v, p: o.at(p)),
     "eval": (lambda sm, E, e, v: e, lambda sm, E, o, v, p: o.at(p)),
+    "synth_fwd": (lambda sm, E, e, v: sm.Partial(e, v), lambda sm, E, o, v, p: o.as_expression().at(p)),
+    "synth_rev": (lambda sm, E, e, v: sm.Differential(e, compute_early=True), lambda sm, E, o, v, p: o.component(v).as_expression().at(p)),
+    "synth_diff_late": (lambda sm, E, e, v: sm.Differential(e), lambda sm, E, o, v, p: o.component(v).as_expression().at(p)),
+    "synth_deriv": (lambda sm, E, e, v: sm.Derivative(e, compute_early=True), lambda sm, E, o, v, p: o.as_expression().at(p)),
     "diff_at_all": (lambda sm, E, e, v: sm.Differential(e), lambda sm, E, o, v, p: (lambda ld: [ld.component(w) for w in v])(o.at(p))),
     "diff_at_early_all": (lambda sm, E, e, v: sm.Differential(e, compute_early=True), lambda sm, E, o, v, p: (lambda ld: [ld.component(w) for w in v])(o.at(p))),
 }
@@ -268,6 +274,8 @@ def run_route_reusing(route, e, v, steps, p):
         for st in steps:
             if st[0] == "obj":
                 outcome(lambda: query(sm, E, box["o"], v, st[1]))
+            elif st[0] == "at":
+                outcome(lambda: box["o"].at(st[1]))          # Partial/Derivative: a number; Differential: a LocatedDifferential
             elif st[0] == "comp":
                 # one single component is requested first (a Differential must not conclude that it now knows all of them)
                 w = v[0] if isinstance(v, list) else v
@@ -277,6 +285,19 @@ def run_route_reusing(route, e, v, steps, p):
                 run_route(st[1], e, v, st[2])
         return query(sm, E, box["o"], v, p)
     return outcome(thunk)
+
+
+def _eq_used(sm, E, e, v, p):
+    q1 = sm.Differential(e, compute_early=True).component(v)
+    q0 = sm.Differential(e).component(E.Variable(v))
+    pl = sm.Partial(e, v)
+    pe = sm.Partial(e, v, compute_early=True)
+    for o in (pl, q0):
+        outcome(lambda: o.as_expression())
+        outcome(lambda: hash(o))
+        outcome(lambda: o.at(p))
+    return (bool(q1 == pl) and bool(pl == q1) and bool(q0 == pl) and bool(pe == pl) and bool(q1 == q0) and bool(pe == q1)
+            and bool(sm.Partial(e, v) == pl) and bool(pl == sm.Partial(e, v)) and hash(pl) == hash(q1) == hash(q0) == hash(pe))
 
 
 def make_point(coords):
